@@ -1,4 +1,4 @@
-SOURCE_COMMITS = ['2a82dd5', '23b3277', 'd11a4bc', '0ff938d', 'f5c3f96', '4d27d01', '24cde5a', 'eabce87', '6660817', '6b4eb47']
+SOURCE_COMMITS = ['2a82dd5', '23b3277', 'd11a4bc', '0ff938d', 'f5c3f96', '4d27d01', '24cde5a', 'eabce87', '6660817', '6b4eb47', '2cb23c1', '3b6902e']
 NOTES = ('Exit codes of ./check: 0 all obligations discharged; 1 violation (VIOLATION line); '
          '2 undecided (solver unknown / extraction failure / contract binding lost); 3 checker crash. '
          'See DESIGN.md.')
@@ -138,4 +138,12 @@ CLAIMED = {
         'one count at (target, argmax), per-domain restriction, per-position variants.',
    note='Trusted: argmax first maximum, argsort stable ascending, slicing/reversal, one_hot, log_softmax, .at[].set; tuples of masked / '
         'oov values of length 0..2. Not covered: extreme magnitudes; composition of the sequence cross-entropy metrics (native driver).'),
+ 'C20': dict(
+   text='Contracts on the packaged preprocessors: _build_look_up_table (loop invariant over an array with the LAST-index ghost), '
+        'preprocess_client (point-function arrays: join loop invariant at an arbitrary snippet/position, OFF ghost with a '
+        'monotonicity lemma, shift-by-one, least-multiple padding, labels in the vocabulary), model ids = dataset ids as '
+        'symbolic equalities over vocab_size, CIFAR centre/random crop arithmetic and the standardisation floor against the '
+        'TensorFlow definitions, EMNIST domain_id for both id formats.',
+   note='Trusted: numpy zeros/full/slices/fancy indexing/reshape order, TensorFlow documented definitions, StackOverflow '
+        'tokenizer ids (TF lookup ops). Row independence of the packaged networks: bounded native check only (not proved).'),
 }
